@@ -56,6 +56,10 @@ def cases(draw, tier):
         else:
             other = draw(st.lists(st.sampled_from(UNI), min_size=1,
                                   max_size=5, unique=True))
+        if draw(st.integers(0, 7)) == 0:
+            # the two axes are separate name spaces: a name may be an ID on
+            # both (numeric IDs often are)
+            other = [axis_ids[0]] + [x for x in other if x != axis_ids[0]][1:]
         obs, samp = (other, axis_ids) if axis == "sample" else \
             (axis_ids, other)
         md_axis = draw(st.booleans())
